@@ -1,3 +1,5 @@
+#[cfg(feature = "verif")]
+use crate::verif::std_shim as std;
 use std::io::ErrorKind;
 use std::time::Duration;
 
